@@ -65,6 +65,7 @@ func sanitizeLangSys(langSys *tables.LangSys, featuresCount int) {
 		// invalid index : replace it by the sentinel value
 		langSys.RequiredFeatureIndex = 0xFFFF
 	}
+	langSys.FeatureIndices = sanitizeIndices(langSys.FeatureIndices, featuresCount)
 }
 
 type Script struct {
